@@ -4,7 +4,7 @@
 From Coq Require Import List NArith.
 From LV Require Import Base.Bytes Router.Url Router.UrlProofs
   ServerFn.ErrorCodec ServerFn.ErrorCodecProofs ServerFn.Base64Proofs ServerFn.UrlFormProofs
-  ServerFn.Protocol ServerFn.ProtocolProofs.
+  ServerFn.Protocol ServerFn.ProtocolProofs ServerFn.Websocket ServerFn.WebsocketProofs.
 Import ListNotations.
 Open Scope N_scope.
 
@@ -145,3 +145,76 @@ Theorem C13_multipart_boundary_total :
   multipart_boundary C parse_boundary ct <> Panic.
 Proof. exact multipart_boundary_total. Qed.
 Print Assumptions C13_multipart_boundary_total.
+
+(** websocket protocol: the stream a remote caller receives is, item by item, the stream the
+    body returns when called directly — values and error items of every variant and message,
+    in both directions — for all item codecs that decode what they encode and every body,
+    when the transport delivers the frames it was given *)
+Theorem C13_ws_remote_eq_direct :
+  forall (C : Type) (cdisplay : C -> bytes) (cparse : bytes -> option C) (In Out : Type)
+         (enc_in : In -> bytes + bytes) (dec_in : bytes -> In + bytes)
+         (enc_out : Out -> bytes + bytes) (dec_out : bytes -> Out + bytes)
+         (body : list (item C In) -> list (item C Out)) (items : list (item C In)),
+  Forall (item_ok C cdisplay cparse enc_in dec_in) items ->
+  Forall (item_ok C cdisplay cparse enc_out dec_out) (body items) ->
+  ws_remote C cdisplay cparse In Out enc_in dec_in enc_out dec_out body [] [] items
+  = ws_direct C In Out body items.
+Proof. exact ws_remote_eq_direct. Qed.
+Print Assumptions C13_ws_remote_eq_direct.
+
+(** a frame the item codec rejects arrives as a Deserialization error value … *)
+Theorem C13_ws_frame_undecodable :
+  forall (C : Type) (cparse : bytes -> option C) (A : Type) (dec : bytes -> A + bytes) b msg,
+  dec b = inr msg -> recv_item C cparse dec (inl b) = inr (Std KDeserialization msg).
+Proof. exact ws_frame_undecodable. Qed.
+Print Assumptions C13_ws_frame_undecodable.
+
+(** … an item that cannot be encoded travels, and arrives, as a Serialization error … *)
+Theorem C13_ws_unencodable_item :
+  forall (C : Type) (cdisplay : C -> bytes) (cparse : bytes -> option C) (A : Type)
+         (enc : A -> bytes + bytes) (dec : bytes -> A + bytes) x msg,
+  enc x = inr msg -> utf8_valid msg = true ->
+  recv_item C cparse dec (send_item C cdisplay enc (inl x)) = inr (Std KSerialization msg).
+Proof. exact ws_unencodable_item. Qed.
+Print Assumptions C13_ws_unencodable_item.
+
+(** … and frames replaced in flight never lose or invent items of an item-wise body *)
+Theorem C13_ws_faults_keep_length :
+  forall (C : Type) (cdisplay : C -> bytes) (cparse : bytes -> option C) (In Out : Type)
+         (enc_in : In -> bytes + bytes) (dec_in : bytes -> In + bytes)
+         (enc_out : Out -> bytes + bytes) (dec_out : bytes -> Out + bytes)
+         (body : list (item C In) -> list (item C Out)) up down items,
+  (forall l, length (body l) = length l) ->
+  length (ws_remote C cdisplay cparse In Out enc_in dec_in enc_out dec_out body up down items)
+  = length items.
+Proof. exact ws_remote_length. Qed.
+Print Assumptions C13_ws_faults_keep_length.
+
+(** the string form of an error (ServerFnErrorWrapper: Display, then FromStr), for every error
+    type, text or binary encoder: the error comes back *)
+Theorem C13_wrapper_roundtrip :
+  forall (E : Type) (fmt : format) (eser : E -> bytes) (ede : bytes -> E)
+         (deser_error : bytes -> E) (e : E),
+  (fmt = FText -> utf8_valid (eser e) = true) ->
+  all_bytes (eser e) = true ->
+  ede (eser e) = e ->
+  exists s, wrapper_to_string E fmt eser e = Some s
+            /\ wrapper_from_str E fmt ede deser_error s = e.
+Proof. exact wrapper_roundtrip. Qed.
+Print Assumptions C13_wrapper_roundtrip.
+
+(** a string that is not the text form of any encoded value still gives an error value *)
+Theorem C13_wrapper_malformed :
+  forall (E : Type) (fmt : format) (ede : bytes -> E) (deser_error : bytes -> E) s err,
+  from_encoded_string fmt s = inr err ->
+  wrapper_from_str E fmt ede deser_error s = deser_error (b64_error_display err).
+Proof. exact wrapper_from_str_malformed. Qed.
+Print Assumptions C13_wrapper_malformed.
+
+(** for ServerFnError<C> itself: kind and message survive the string form *)
+Theorem C13_error_string_roundtrip :
+  forall (C : Type) (cdisplay : C -> bytes) (cparse : bytes -> option C) (e : sfe C),
+  err_ok C cdisplay cparse e ->
+  exists s, sfe_to_string C cdisplay e = Some s /\ sfe_from_str C cparse s = e.
+Proof. exact sfe_string_roundtrip. Qed.
+Print Assumptions C13_error_string_roundtrip.
